@@ -3,7 +3,7 @@
    linear work — is carried by the sanitizer / guard-page / valgrind / callgrind runs of the C06 check on the real code. *)
 From Coq Require Import List NArith ZArith Bool.
 From Coq Require Import Strings.Byte.
-Require Import Bytes Codes Local Local6531 Domain Ip Special Email Api ApiProofs TldProofs EnumTie SafetyProofs LocalA DomainA Local6531A IpA StrA SpecialA.
+Require Import Bytes Codes Local Local6531 Domain Ip Special Email Api ApiProofs TldProofs EnumTie SafetyProofs LocalA DomainA Local6531A IpA StrA SpecialA EmailA.
 Require Gen.GenEnums.
 Import ListNotations.
 
@@ -83,6 +83,20 @@ Theorem C06_special_domain_access_model :
   forall s, nulfree s -> specialA (s ++ [NUL]) (length s) = retb (special_domain s).
 Proof. exact specialA_refines. Qed.
 Print Assumptions C06_special_domain_access_model.
+
+(* the whole ASCII-mode validation — basic_email_check, the mode's local-part scanner, *brs, is_ascii_domain, check_tld with
+   is_special_domain / strrchr / is_tld over the table of the built library, check_ip with strrchr / strncmp / memchr / is_ipv6 /
+   is_ipv4 — as one access model over the caller's C string: for every NUL-free address, every ASCII mode and both settings of
+   tld_check it returns the functional model's result code, hence never reads outside [first byte, terminator], never uses a
+   NULL strchr/strrchr result, never overflows label[], never exhausts a loop bound *)
+Theorem C06_table_names_are_C_strings : rows_ok tld_list.
+Proof. apply Forall_forall. intros r Hr. apply nulfreeb_spec. revert r Hr. apply forallb_forall. vm_compute. reflexivity. Qed.
+Print Assumptions C06_table_names_are_C_strings.
+Theorem C06_email_access_model :
+  forall us a idn g m tld, nulfree a -> uscore g = us ->
+  emailA tld_list us (a ++ [NUL]) m tld (length a) = RetA (rc (email idn g tld_list (MA m) tld a)).
+Proof. intros us a idn g m tld Ha Hus. apply emailA_refines; [exact C06_table_names_are_C_strings|exact Ha|exact Hus]. Qed.
+Print Assumptions C06_email_access_model.
 
 (* look-ahead discipline: whatever lies beyond the end pointer can influence a scanner only through the byte at [end] *)
 Theorem C06_local_lookahead :
